@@ -101,10 +101,11 @@ def generate_high_level_commands_for_sched_op(sched_op, schedule):
     strides = [1, kernel_stride.y, kernel_stride.x, 1]
     skirt = parent_op.attrs.get("skirt", None)
     upscaling = 1
+    # ifm_read_shape: the slice when the operator was fused with a slice read, the whole IFM otherwise
     if sched_op.op_type == Op.Conv2DBackpropInputSwitchedBias:
-        upscaling = ofm_shape.height // ifm.shape.height
+        upscaling = ofm_shape.height // sched_op.ifm_read_shape.height
     elif is_nearest(sched_op.resampling_mode):
-        upscaling = round_up_divide(ofm_shape.height, ifm.shape.height)
+        upscaling = round_up_divide(ofm_shape.height, sched_op.ifm_read_shape.height)
 
     # Get kernel height and height dilation
     k_height = 1
